@@ -313,7 +313,7 @@ static void nevadj_case(int n, int nev, int ncv, int nconv)
     sym::note("k", std::to_string(k));
     sym::expect("1 <= k < ncv", k >= 1 && k < ncv, "k=" + std::to_string(k));
     sym::expect("k >= nev (wanted values are never purged)", k >= nev, "k=" + std::to_string(k));
-    if (ncv > 5)
+    if (ncv > (getenv("VERIF_NEVADJ_RESTART_MAX") ? atoi(getenv("VERIF_NEVADJ_RESTART_MAX")) : 5))
     {
         // restart() ends with an argsort of ncv values (ncv! paths): only the size function is decided at these sizes
         sym::witness("end");
